@@ -4,6 +4,7 @@ import (
 	"context"
 	"io"
 	"net"
+	"time"
 )
 
 // C23: multiplexed streams deliver bytes reliably and in order.
@@ -21,7 +22,7 @@ import (
 //
 // and likewise CloseWrite / Close -> enqueue -> write -> read.  Streams are
 // opened with the real open/accept messages (the message-emitting half of
-// OpenStream is copied in verifC23Open, the accepting side is the real
+// OpenStream is copied in verifOpenStream, the accepting side is the real
 // acceptOneStream).
 //
 // The oracle is a per-stream model kept by the harness: the bytes Write
@@ -48,22 +49,9 @@ type verifC23World struct {
 	maxWrite int
 	maxRead  int
 	zeroOps  bool
+	bigWrites int // writes beyond the send window still allowed on this path
 	rClose   bool
 	setup    bool
-}
-
-// verifC23Open is the message-emitting half of Multiplexer.OpenStream (which as
-// a whole waits for the peer's answer and cannot run in one goroutine).
-func verifC23Open(m *Multiplexer) *Stream {
-	m.streamLock.Lock()
-	stream := newStream(m, m.nextOutboundStreamIdentifier, m.configuration.StreamReceiveWindow)
-	m.streams[m.nextOutboundStreamIdentifier] = stream
-	m.nextOutboundStreamIdentifier += 2
-	m.streamLock.Unlock()
-	writeBuffer := <-m.writeBufferAvailable
-	writeBuffer.encodeOpenMessage(stream.identifier, uint64(m.configuration.StreamReceiveWindow))
-	m.writeBufferPending <- writeBuffer
-	return stream
 }
 
 // sToR flushes S's pending buffers to the wire towards R.
@@ -81,10 +69,6 @@ func (w *verifC23World) rToS(enqueue bool) {
 	err := w.S.read(w.wireRS, w.heartbeats)
 	vAssert(verifIsEOF(err), "sender's reader loop accepts everything the receiver sent")
 	vAssert(len(w.wireRS.data) == 0, "harness: sender's reader loop consumed the wire")
-}
-
-func verifIsEOF(err error) bool {
-	return err != nil && verifEndOfInput(err)
 }
 
 // enqueueOne runs the enqueue loop for exactly one pending update.  The loop
@@ -139,7 +123,7 @@ func (w *verifC23World) doRead(i, size int) {
 }
 
 type verifC23Op struct {
-	kind   int // 0 write, 1 read, 2 close-write, 3 close (sender), 4 close (receiver), 5 write on a closed stream
+	kind   int // 0 write, 1 read, 2 close-write, 3 close (sender), 4 close (receiver), 5 write on a closed stream, 6 write beyond the window
 	stream int
 	arg    int
 }
@@ -158,10 +142,15 @@ func (w *verifC23World) ops() []verifC23Op {
 				lo = 0
 			}
 			for k := lo; k <= w.maxWrite; k++ {
-				// a Write larger than the send window waits for the reader: not
-				// completable in one goroutine (see props: outside the claim)
-				if uint64(k) <= w.ss[i].sendWindow && !verifIsClosed(w.ss[i].remoteClosed) {
+				if verifIsClosed(w.ss[i].remoteClosed) {
+					continue
+				}
+				if uint64(k) <= w.ss[i].sendWindow {
 					ops = append(ops, verifC23Op{0, i, k})
+				} else if w.bigWrites > 0 {
+					// a Write larger than the send window waits for the reader;
+					// in one goroutine it can only be ended by a write deadline
+					ops = append(ops, verifC23Op{6, i, k})
 				}
 			}
 			ops = append(ops, verifC23Op{2, i, 0})
@@ -208,6 +197,30 @@ func (w *verifC23World) step() {
 		vAssert(count == len(orig) || err != nil, "Write: short count only with an error")
 		vAssert(verifBytesEq(data, orig), "Write: caller's buffer not modified")
 		w.written[i] = append(w.written[i], orig[:count]...)
+		w.sToR()
+	case 6: // Write beyond the send window, ended by a write deadline set meanwhile
+		w.bigWrites--
+		s := w.ss[i]
+		data := vBytes(op.arg)
+		orig := append([]byte(nil), data...)
+		// a concurrent SetWriteDeadline(past) hands the deadline to the writer
+		// through writeDeadlineSet; here it is waiting there already
+		saved := s.writeDeadlineSet
+		s.writeDeadlineSet = make(chan time.Time, 1)
+		s.writeDeadlineSet <- time.Unix(1, 0)
+		count, err := s.Write(data)
+		s.writeDeadlineSet = saved
+		vAssert(count >= 0 && count <= len(orig), "Write: count within the data")
+		if count < 0 || count > len(orig) {
+			vStop()
+		}
+		vAssert(count == len(orig) || err != nil, "Write: short count only with an error")
+		vAssert(verifBytesEq(data, orig), "Write: caller's buffer not modified")
+		if count > 0 && count < len(orig) {
+			vCover("partial-write")
+		}
+		w.written[i] = append(w.written[i], orig[:count]...)
+		vAssert(s.SetWriteDeadline(time.Time{}) == nil, "SetWriteDeadline: clears the deadline")
 		w.sToR()
 	case 5: // Write after CloseWrite/Close
 		count, err := w.ss[i].Write(vBytes(op.arg))
@@ -287,15 +300,15 @@ func VerifC23Pipe() {
 		maxRead:    vParam("maxread", 2),
 		zeroOps:    vParam("zero", 0) != 0,
 		rClose:     vParam("rclose", 0) != 0,
+		bigWrites:  vParam("bigwrites", 1),
 	}
-	if vParam("chunk", 0) != 0 && vBool() {
+	// variant 1: S uses the even identifiers and both carriers deliver one
+	// byte per Read call (short reads).
+	even := false
+	if vParam("variant", 0) == 1 {
+		even = true
 		w.wireSR.chunk = 1
 		w.wireRS.chunk = 1
-	}
-	// S uses odd identifiers unless the mirrored assignment is chosen.
-	even := false
-	if vParam("mirror", 0) != 0 {
-		even = vChoose(2) == 1
 	}
 	w.S = verifNewMux(even, vParam("swin", 2), vParam("buffers", 2), w.n)
 	w.R = verifNewMux(!even, window, vParam("buffers", 2), w.n)
@@ -306,7 +319,7 @@ func VerifC23Pipe() {
 	w.rClosed = make([]bool, w.n)
 	w.eof = make([]bool, w.n)
 	for i := 0; i < w.n; i++ {
-		w.ss = append(w.ss, verifC23Open(w.S))
+		w.ss = append(w.ss, verifOpenStream(w.S))
 		w.sToR()
 	}
 	w.wireSR.onEmpty = w.onEmpty
@@ -336,6 +349,167 @@ func VerifC23Pipe() {
 		}
 		if w.n > 1 && len(w.read[0]) > 0 && len(w.read[1]) > 0 {
 			vCover("two-streams")
+		}
+	}
+}
+
+// ---------------------------------------------------------------- codec
+
+// verifC23Expect is the state a stream must be in after the reader loop
+// processed one message.
+type verifC23Expect struct {
+	established, closedWrite, closed bool
+	sendWindow                       uint64
+	buffered                         int
+}
+
+func verifC23Check(s *Stream, e verifC23Expect, what string) {
+	vAssert(verifIsClosed(s.established) == e.established, what+": established")
+	vAssert(verifIsClosed(s.remoteClosedWrite) == e.closedWrite, what+": half-closed by the peer")
+	vAssert(verifIsClosed(s.remoteClosed) == e.closed, what+": closed by the peer")
+	vAssert(s.sendWindow == e.sendWindow, what+": send window")
+	vAssert(s.receiveBuffer.Used() == e.buffered, what+": buffered data")
+}
+
+// VerifC23Codec: every stream message kind, encoded by the real
+// messageBuffer.encode* functions with a symbolic 64-bit stream identifier and
+// symbolic window / increment / payload, is decoded by the real reader loop to
+// exactly that (kind, identifier, value): the effect is observed on the stream
+// registered under that identifier, and a second stream with a different
+// symbolic identifier is left untouched.
+func VerifC23Codec() {
+	kind := messageKind(1 + vChoose(6))
+	// Open is sent on identifiers of the sender (inbound here).  Accept and
+	// data are only legal on established streams, which for inbound streams
+	// needs the local accept (covered by the pipeline harness); the other
+	// kinds are decoded on both kinds of identifiers.
+	inbound := kind == messageKindStreamOpen
+	if kind >= messageKindStreamWindowIncrement {
+		inbound = vChoose(2) == 1
+	}
+	even := vBool()
+	m := verifNewMux(false, 4, 1, 2)
+	m.even = even
+	narrow := vParam("narrow", 0) != 0
+	value := func() uint64 {
+		if narrow {
+			return uint64(vU8())
+		}
+		return vU64()
+	}
+
+	vLabel("id")
+	id := vU64() >> uint(64-vParam("idbits", 64))
+	vLabel("other")
+	other := vU64()
+	vLabel("")
+	vAssume(id != 0 && other != 0 && id != other)
+	vAssume((even == (id%2 == 0)) != inbound)
+	vAssume(even == (other%2 == 0))
+	// the range of outbound identifiers in use: exhausted (0) or beyond both
+	next := vU64()
+	vAssume(next == 0 || (other < next && (inbound || id < next)))
+	m.nextOutboundStreamIdentifier = next
+
+	w0 := value()
+	if inbound {
+		w0 = uint64(vU8())
+	}
+	w1 := vU64()
+	so := newStream(m, other, 4)
+	close(so.established)
+	so.sendWindow = w1
+	m.streams[other] = so
+	expectOther := verifC23Expect{established: true, sendWindow: w1}
+
+	var st *Stream
+	expect := verifC23Expect{}
+	buffer := newMessageBuffer()
+	if inbound {
+		if kind != messageKindStreamOpen {
+			// the stream is created by the reader loop from an open message
+			buffer.encodeOpenMessage(id, w0)
+			expect.sendWindow = w0
+		}
+	} else {
+		st = newStream(m, id, 4)
+		if kind != messageKindStreamAccept {
+			close(st.established)
+			expect.established = true
+			st.sendWindow = w0
+			expect.sendWindow = w0
+			if w0 != 0 {
+				st.sendWindowReady <- struct{}{}
+			}
+		}
+		m.streams[id] = st
+	}
+
+	amount := value()
+	var payload []byte
+	switch kind {
+	case messageKindStreamOpen:
+		buffer.encodeOpenMessage(id, amount)
+		expect.sendWindow = amount
+	case messageKindStreamAccept:
+		buffer.encodeAcceptMessage(id, amount)
+		expect.established = true
+		expect.sendWindow = amount
+	case messageKindStreamData:
+		payload = vBytes(vRange(1, 3))
+		buffer.encodeStreamDataMessage(id, payload)
+		expect.buffered = len(payload)
+	case messageKindStreamWindowIncrement:
+		vAssume(amount != 0)
+		vAssume(expect.sendWindow+amount >= amount) // the sum fits 64 bits (a conforming peer never exceeds it)
+		buffer.encodeStreamWindowIncrement(id, amount)
+		expect.sendWindow += amount
+	case messageKindStreamCloseWrite:
+		buffer.encodeStreamCloseWrite(id)
+		expect.closedWrite = true
+	case messageKindStreamClose:
+		buffer.encodeStreamClose(id)
+		expect.closed = true
+	}
+	wire := &verifWire{}
+	buffer.WriteTo(wire)
+	err := m.read(wire, make(chan struct{}, 1))
+	vCover("codec")
+	vAssert(verifIsEOF(err), "codec: the reader loop accepts the encoded message")
+	vAssert(len(wire.data) == 0, "codec: the reader loop consumed exactly the encoded bytes")
+
+	got := m.streams[id]
+	vAssert(got != nil, "codec: the message reached the stream with the encoded identifier")
+	if got == nil {
+		return
+	}
+	if inbound {
+		vCover("codec-inbound")
+		vAssert(got.identifier == id, "codec: stream created with the encoded identifier")
+		vAssert(len(m.pendingInboundStreamIdentifiers) == 1, "codec: opened stream queued for accept")
+		if len(m.pendingInboundStreamIdentifiers) == 1 {
+			vAssert(<-m.pendingInboundStreamIdentifiers == id, "codec: queued under the encoded identifier")
+		}
+	} else {
+		vCover("codec-outbound")
+		vAssert(got == st, "codec: the registered stream is still registered")
+	}
+	verifC23Check(got, expect, "codec")
+	vAssert(m.streams[other] == so, "codec: the other stream is still registered")
+	verifC23Check(so, expectOther, "codec: other stream untouched")
+
+	if kind == messageKindStreamData {
+		if vChoose(2) == 1 {
+			// a zero-length read consumes nothing
+			count, err := got.Read(make([]byte, 0))
+			vCover("zero-length-read")
+			vAssert(count == 0 && err == nil, "Read: zero-length read returns (0, nil) while data is buffered")
+		}
+		data := make([]byte, 4)
+		count, err := got.Read(data)
+		vAssert(err == nil && count == len(payload), "codec: the payload is readable")
+		if count == len(payload) {
+			vAssert(verifBytesEq(data[:count], payload), "codec: the payload bytes arrive unchanged")
 		}
 	}
 }
